@@ -1,6 +1,6 @@
 import importlib
 
-MODULES = ['traversal', 'equality', 'payload', 'locks', 'registry_cxx', 'safety', 'py_ops', 'py_registry', 'twins', 'py_misc']
+MODULES = ['traversal', 'equality', 'payload', 'locks', 'registry_cxx', 'safety', 'py_ops', 'py_registry', 'twins', 'py_misc', 'matrix']
 
 
 def load_all():
